@@ -308,4 +308,37 @@ theorem repaired_code_refetches :
       [.words [.good 0 0], .panic, .words [.good 2 0]] := by
   rfl
 
+/-! ### the entropy-seeded constructors fill the whole state -/
+
+/-- **`X::new()` fills the generator's entire state from the entropy source**: when the fetch
+succeeds the state has exactly `words` words, the `j`-th is word `j` of that one fetch (so every
+state word comes from its own entropy word, none is a constant, a copy or derived from another),
+and they are pairwise distinct origins; when the fetch fails the constructor panics and no
+generator exists. (`words` = 8 for Xoshiro256: all 256 bits; 12 for ChaCha: key, counter and stream;
+2 for the 64-bit generators.) -/
+theorem constructor_fills_whole_state (words : Nat) (script : List Bool) :
+    (script.headD true = true →
+      ∃ ws, SystemGen.newState srcLabels words script = some ws ∧ ws.length = words ∧
+        (∀ j, j < words → ws[j]? = some (Src.good 0 j)) ∧ ws.Nodup) ∧
+    (script.headD true = false → SystemGen.newState srcLabels words script = none) := by
+  constructor
+  · intro h
+    refine ⟨(List.range words).map (Src.good 0), ?_, by simp, ?_, ?_⟩
+    · unfold SystemGen.newState
+      rw [if_pos h]
+      rfl
+    · intro j hj
+      simp [hj]
+    · unfold List.Nodup
+      rw [List.pairwise_map]
+      refine List.Pairwise.imp ?_ (List.nodup_range (n := words))
+      intro a b hne hab
+      cases hab
+      exact hne rfl
+  · intro h
+    unfold SystemGen.newState
+    rw [if_neg (by rw [h]; decide)]
+
+example : SystemGen.newState natLabels 2 [] = some [65536, 65537] := by decide
+
 end Urandom.C17
